@@ -240,7 +240,7 @@ func c13r4(w *World, rr *RuleRun) {
 	argsSeq := w.P.Field("krpc", "MsgArgs", "Seq")
 	for _, fn := range []string{"V", "K", "Sig"} {
 		rf := w.P.Field("krpc", "Bep44Return", fn)
-		for _, st := range w.FieldWrites([]*ssa.Function{h.fn}, rf) {
+		for _, st := range w.FieldWrites(w.RegionOf(h.fn), rf) {
 			w.Require(rr, st, "get sends "+strings.ToLower(fn)+" only when no seq was named or the stored seq is newer", func(alt *Alt) (bool, string) {
 				if alt.Has("n", false, func(t *Term) bool { return t.Op == OpField && t.Obj == argsSeq }) {
 					return true, "args.seq absent"
@@ -262,7 +262,7 @@ func c13r4(w *World, rr *RuleRun) {
 func c13r5(w *World, rr *RuleRun) {
 	h := w.handler()
 	itemT := w.P.NamedType("bep44", "Item")
-	lit := w.literalStores(h.fn, itemT)
+	lit := w.literalStoresRegion(h.fn, itemT)
 	argsSeq := w.P.Field("krpc", "MsgArgs", "Seq")
 	argsCas := w.P.Field("krpc", "MsgArgs", "Cas")
 	seq := w.TS.Of(lit["Seq"])
